@@ -31,6 +31,14 @@ from ..engine import Query
 from ..lib.periph import VS, in_vsync
 
 PROP = "C53"
+
+# FINDINGS
+#   fixed in /repo by 66a47ca "fix: release HyperRAM chip-select after a register write":
+#     a register write returned from WRITE_DATA straight to IDLE (no RECOVERY); with start_transfer high in that first
+#     idle cycle the next transaction was started with CS still asserted, i.e. CS was never released between the two
+#     transactions.  Caught by cs_release (bmc_free_command).
+#   The scenario predicate kf_request_right_after_register_write describes that finding; no entry is open.
+#   Not in scope (not checked): HyperRAMDQSInterface contains the same register-write shortcut.
 ENCODED = ["luna/gateware/interface/psram.py: HyperRAMInterface.elaborate (ca layout, IDLE/LATCH_RWDS/SHIFT_COMMANDx/"
            "HANDLE_LATENCY/READ_DATA/WRITE_DATA/RECOVERY FSM, registered phy outputs)"]
 LAT = 14          # 2 x 7 clocks: the fixed (always doubled) latency the class documents
@@ -194,12 +202,18 @@ def queries(tier):
     quick = tier == "quick"
     f = lambda: HyperRamHarness()
     K = 32 if quick else 52
-    qs = [Query("bmc_free", f, K, timeout=900,
+    desc = "everything free every cycle: controller requests, final_word, memory RWDS/DQ"
+    kw = dict(timeout=900, split=False)
+    qs = [Query("bmc_free_command", f, K, asserts=["ca_word", "cs_hold", "cs_release", "latency"], covers=[],
+                desc=desc + " [command word / chip select / latency family]", **kw),
+          Query("bmc_free_drive", f, K, asserts=["dq_drive", "rwds_drive", "write_clocked"], covers=[],
+                desc=desc + " [bus drive enables family]", **kw),
+          Query("cover_free", f, K, asserts=[],
                 covers=["mem_write_2words", "mem_read_done", "reg_write_done", "reg_read_done", "ca_addr_bits",
                         "read_ignored_in_latency"] + ([] if quick else ["second_transaction"]),
-                desc="everything free every cycle: controller requests, final_word, memory RWDS/DQ"),
-          Query("cover_second", f, 34, asserts=[], covers=["second_transaction"],
+                desc=desc + " [witnesses]", **kw),
+          Query("cover_second", f, 34, asserts=[], covers=["second_transaction"], split=False,
                 hints={"second_transaction": {"register_space": 1, "perform_write": 1}},
                 desc="witness: a second transaction's command phase (after a register write)"),
-          Query("cosim", f, 0, kind="cosim", cosim_cycles=400 if quick else 3000)]
+          Query("cosim", f, 0, kind="cosim", cosim_cycles=200 if quick else 3000)]
     return qs
